@@ -340,6 +340,8 @@ func runC13(R *vlib.Out) {
 							sig, detail = "panic-in-task:"+r.PanicTask, r.Panic
 						case r.Capped:
 							sig, detail = "livelock-or-step-cap", fmt.Sprint(r.Steps)
+						case r.MainBlocked:
+							sig, detail = "call-never-returned", "the scenario's main task is blocked for good in "+r.MainOp+leakedStr(r.Leaked)
 						default:
 							sig, detail = sc.Check(&r)
 						}
